@@ -4,7 +4,7 @@ transition graphs, evidence and known-findings handling.
 
 Nothing in here decides a property: TLC's verdict on a specification (model run) or on a
 trace recorded from the real code (trace validation) does.  See DESIGN.md section 2."""
-import os, sys, json, subprocess, hashlib, time, shutil, collections, glob, re, random
+import os, sys, json, subprocess, hashlib, time, shutil, collections, glob, re, random, threading
 from concurrent.futures import ThreadPoolExecutor
 
 VERIF = os.path.dirname(os.path.dirname(os.path.abspath(__file__)))
@@ -83,17 +83,26 @@ _hdr_hash = None
 def _compile_one(args):
     cc, flags, src, obj = args
     os.makedirs(os.path.dirname(obj), exist_ok=True)
-    r = sh([cc] + flags + ["-c", src, "-o", obj + ".tmp"], capture_output=True, text=True)
+    tmp = "%s.%d.%d.tmp" % (obj, os.getpid(), threading.get_ident())
+    r = sh([cc] + flags + ["-c", src, "-o", tmp], capture_output=True, text=True)
     if r.returncode != 0:
         return (src, r.stderr)
-    os.replace(obj + ".tmp", obj)
+    os.replace(tmp, obj)
     return None
+
+
+_build_lock = threading.Lock()
 
 
 def build(name, mode="plain", wraps=(), defines=(), extra_src=(), libs=()):
     """Compile /repo's current sources + harness/<name>.c (+vh.c) into build/<mode>/bin/<name>[-variant].
     Objects are cached by content hash (source + all headers + flags), so a changed /repo file is
     always recompiled and an unchanged one never is."""
+    with _build_lock:
+        return _build(name, mode, wraps, defines, extra_src, libs)
+
+
+def _build(name, mode, wraps, defines, extra_src, libs):
     global _hdr_hash
     if _hdr_hash is None:
         _hdr_hash = _sha(lib_headers())
@@ -118,11 +127,12 @@ def build(name, mode="plain", wraps=(), defines=(), extra_src=(), libs=()):
     if not os.path.exists(exe):
         os.makedirs(os.path.dirname(exe), exist_ok=True)
         wl = ["-Wl,--wrap=%s" % w for w in wraps]
-        r = sh([cc] + objs + ["-o", exe + ".tmp"] + ldflags + wl + ["-pthread", "-lm"] + list(libs),
+        tmp = "%s.%d.tmp" % (exe, os.getpid())
+        r = sh([cc] + objs + ["-o", tmp] + ldflags + wl + ["-pthread", "-lm"] + list(libs),
                capture_output=True, text=True)
         if r.returncode != 0:
             raise Infra("link failed for %s: %s" % (name, r.stderr[-3000:]))
-        os.replace(exe + ".tmp", exe)
+        os.replace(tmp, exe)
     return exe
 
 
